@@ -29,6 +29,9 @@ Init == \/ /\ prop = "C05" /\ n \in 1..MaxN /\ bounded \in BOOLEAN
            /\ special \in {"none"} \cup (IF scaling THEN {"narrow_box"} ELSE {})
                                    \cup (IF ~scaling /\ mclass # "under" /\ x0class = "interior" /\ \A i \in 1..n : status[i] = "free" THEN {"solution_on_init_grid"} ELSE {})
                                    \cup (IF ~scaling /\ mclass # "under" /\ x0class = "interior" THEN {"tiny_sensitivities"} ELSE {})
+                                   \* huge_sensitivities - |A| ~ 1e7 .. 1e8 (variables in small units; conditioning unchanged), residual at the solution of the same
+                                   \* relative size: model Hessians ~ 1e16, conjugate-gradient step MULTIPLIERS ~ 1e-16 - a multiplier is not a length
+                                   \cup (IF ~scaling /\ mclass = "over" /\ x0class = "interior" THEN {"huge_sensitivities"} ELSE {})
                                    \* start_on_active_face - the start lies on every bound that is active at the solution (multipliers large against the free
                                    \*          variables' gradient) and the free variables start several initial radii from their optimum: every step is a step
                                    \*          ALONG the face, with fixed variables whose gradient components dominate;
